@@ -156,6 +156,15 @@ theorem totals_of_q {s s' : State} (hq : qPart s' = qPart s) (hi : TotalsInv s) 
     · rw [hpool.1, h1, sum_map_triple1, sum_map_triple1, hpl]
     · rw [hpool.2, h2, sum_map_triple2, sum_map_triple2, hpl]
 
+theorem redelegate_keepsQ (e : Env) (s : State) (g : Dec) (del : Addr) (src dst : ValAddr) (amt : Int) :
+    keepsQ s (stakeRedelegate e s g del src dst amt) := by
+  unfold keepsQ
+  split
+  · rename_i s' hs
+    exact redelegate_keeps qPart (fun e s s' g g' v a b h => verifySuper_qS e s s' g g' v a b h)
+      (fun s s' a b x h => send_qS s s' a b x h) (fun _ _ => rfl) e s g del src dst amt s' hs
+  · trivial
+
 /-! ### every operation -/
 theorem begin_q (e : Env) (s s' : State) (h : nodeBeginBlock e s = .ok s') : qPart s' = qPart s := by
   unfold nodeBeginBlock at h
@@ -251,6 +260,13 @@ theorem step_q (e : Env) (y : Sys) (op : Op) (hop : isCapacityMsg op = false) : 
   case undelegate c v a =>
     simp only [step, stepBase, stakeStep]
     have := undelegate_keepsQ e y.st y.global c v a
+    unfold keepsQ at this
+    split
+    · rename_i s' hs; rw [hs] at this; exact this
+    · rfl
+  case redelegate c v w a =>
+    simp only [step, stepBase, stakeStep]
+    have := redelegate_keepsQ e y.st y.global c v w a
     unfold keepsQ at this
     split
     · rename_i s' hs; rw [hs] at this; exact this
@@ -358,6 +374,13 @@ theorem C14_step_keeps_totals (e : Env) (y : Sys) (op : Op) (hi : TotalsInv y.st
   case undelegate c v a =>
     simp only [step, stepBase, stakeStep]
     have := undelegate_keepsQ e y.st y.global c v a
+    unfold keepsQ at this
+    split
+    · rename_i s' hs; rw [hs] at this; exact totals_of_q this hi
+    · exact hi
+  case redelegate c v w a =>
+    simp only [step, stepBase, stakeStep]
+    have := redelegate_keepsQ e y.st y.global c v w a
     unfold keepsQ at this
     split
     · rename_i s' hs; rw [hs] at this; exact totals_of_q this hi
